@@ -47,7 +47,7 @@ def role_of(field):
         return 'info_hash'
     if 'peer' in f and 'id' in f:
         return 'peer_id'
-    if 'block' in f or 'data' in f or 'payload' in f or 'bytes' in f or 'bits' in f:
+    if 'block' in f or 'data' in f or 'payload' in f or 'bytes' in f or 'bit' in f or 'map' in f or 'buf' in f:
         return 'payload'
     return None
 
@@ -187,8 +187,29 @@ def writer_layout(F, f, rec):
 
 
 def reader_layout(F, f):
-    """field -> ('be32', offset, width) / ('bytes', offset, 'cursor') from a `from(crs)` body"""
-    fills = {}   # array var name -> (start, end, call bb)
+    """field -> ('be32', offset, width) / ('bytes', offset, 'cursor') from a `from(crs)` body (private helpers of the same
+    type, e.g. a `read_u32(crs, start)`, spliced in)"""
+    return reader_layout2(F, f)[0]
+
+
+class Fills(dict):
+    def __init__(self):
+        dict.__init__(self)
+        self.names = {}
+        self.labels = {}
+
+
+def _lkey(x):
+    """key of a local array: its MIR local when known (two spliced copies of a helper have locals of the same name)"""
+    if x[0] in ('var', 'mvar') and isinstance(x[-1], int):
+        return 'L%d' % x[-1]
+    return x[1] if x[0] in ('var', 'mvar') else show(x)
+
+
+def reader_layout2(F, f):
+    """(fills, body): fills as in reader_layout; body = the function with its same-type private helpers spliced in"""
+    f = mirq.inline_fn(F, f, lambda g, f=f: g.self_ty == f.self_ty and not g.trait, depth=2)
+    fills = Fills()   # array local -> (start, end, to_cursor, call bb)
     for bb in mirq.real_calls(f):
         e = f.expr_call(bb)
         name = e[4].get('name')
@@ -208,9 +229,15 @@ def reader_layout(F, f):
                     x = strip_cast(end_e)
                     if x[0] == 'call' and x[4].get('name') == 'position':
                         to_cursor = True
-                key = dst[1] if dst[0] in ('var', 'mvar') else show(dst)
-                fills[key] = (start, end, to_cursor, bb)
-    return fills
+                fills[_lkey(dst)] = (start, end, to_cursor, bb)
+                fills.names[_lkey(dst)] = dst[1] if dst[0] in ('var', 'mvar') else show(dst)
+    # stable labels: the source name, numbered in layout order when a spliced helper's local is filled more than once
+    seen = {}
+    for k in sorted(fills, key=lambda k: (fills[k][0] is None, fills[k][0] or 0)):
+        n = fills.names[k]
+        seen[n] = seen.get(n, 0) + 1
+        fills.labels[k] = n if seen[n] == 1 else '%s#%d' % (n, seen[n])
+    return fills, f
 
 
 @TABLE.rule('1', 'K6', 'ids: MsgId discriminants = X::ID constants = BEP3 ids; Handshake id is byte 4 of a handshake', floor=10)
@@ -313,7 +340,7 @@ def r_reader(cx, rec):
                 rfields.append((kind, role, off))
                 off += 4
         f = impl_method(F, ty, 'from')
-        fills = reader_layout(F, f)
+        fills, f = reader_layout2(F, f)
         # the returned aggregate
         aggs = [e for bi, si, e in mirq.agg_sites(f, '^' + re.escape(ty) + '$')]
         if len(aggs) != 1:
@@ -330,10 +357,10 @@ def r_reader(cx, rec):
                 rec.need(en == 'be', 'reader/%s/%s/endianness' % (name, role), f, None,
                          '%s.%s is decoded with from_%s_bytes' % (name, fname, en))
                 src = x[2][0]
-                key = src[1] if src[0] in ('var', 'mvar') else show(src)
+                key = _lkey(src)
                 kind = 'be32'
             else:
-                key = x[1] if x[0] in ('var', 'mvar') else show(x)
+                key = _lkey(x)
                 kind = 'bytes'
             fill = fills.get(key)
             if fill is None:
@@ -526,20 +553,32 @@ def r_bitfield(cx, rec):
         return v
 
     # from_vec: byte |= MASK >> idx ; idx = enumerate index over chunks(8) ; one push per chunk
+    def descendants(p):
+        out = []
+        for c in F.children(p):
+            out.append(F.fns[c])
+            out.extend(descendants(c))
+        return out
+    bodies = [fv] + descendants(fv.path)
     ors = []
-    for bi, si, s in fv.assigns():
-        e = fv.expr_rvalue(s['rv'])
-        if e[0] == 'binop' and e[1] == 'BitOr':
-            ors.append((bi, e))
+    for b in bodies:
+        for bi, si, s in b.assigns():
+            e = b.expr_rvalue(s['rv'])
+            if e[0] == 'binop' and e[1] == 'BitOr':
+                ors.append((b, bi, e))
     ok = False
-    for bi, e in ors:
+    enum_in_fn = any(b.expr_call(bb)[4].get('name') == 'enumerate' for b in bodies for bb in mirq.real_calls(b))
+    rev_in_fn = any(b.expr_call(bb)[4].get('name') in ('rev', 'rposition') for b in bodies for bb in mirq.real_calls(b))
+    for b, bi, e in ors:
         sh = e[3] if e[3][0] == 'binop' else e[2]
         if sh[0] == 'binop' and sh[1] in ('Shr', 'ShrUnchecked') and cval(sh[2]) == 0x80:
             idx = sh[3]
-            from_enum = any(x[0] == 'call' and x[4].get('name') == 'enumerate' for x in mirq.walk(idx))
-            rev = any(x[0] == 'call' and x[4].get('name') in ('rev', 'rposition') for x in mirq.walk(idx))
-            tuple0 = idx[0] == 'field' and idx[2] == '0' or (idx[0] == 'cast' and idx[1][0] == 'field' and idx[1][2] == '0')
-            rec.site(fv, bi, 'from_vec: byte |= %s' % show(sh)[:60].replace('std::iter::', ''))
+            from_enum = any(x[0] == 'call' and x[4].get('name') == 'enumerate' for x in mirq.walk(idx)) or \
+                (b is not fv and enum_in_fn and C.is_param(b, idx[1] if idx[0] in ('field', 'cast') else idx))
+            rev = any(x[0] == 'call' and x[4].get('name') in ('rev', 'rposition') for x in mirq.walk(idx)) or (b is not fv and rev_in_fn)
+            inner = idx[1] if idx[0] == 'cast' else idx
+            tuple0 = inner[0] == 'field' and inner[2] == '0'
+            rec.site(b, bi, 'from_vec: byte |= %s' % show(sh)[:60].replace('std::iter::', ''))
             ok = from_enum and not rev and tuple0
     rec.need(ok, 'bitfield/from_vec/bit-order', fv, None,
              'from_vec must set bit (0x80 >> idx) for element idx of each 8-element chunk (MSB first); idiom not found')
